@@ -325,8 +325,9 @@ func orOKs(bad, ok string) string {
 	return bad
 }
 
-func c15args(c *core.Ctx, r *core.Reporter) {
-	const rule = "C15.args"
+func c15args(c *core.Ctx, r *core.Reporter) { c15argsAs(c, r, "C15.args") }
+
+func c15argsAs(c *core.Ctx, r *core.Reporter, rule string) {
 	r.Rule(rule, "every read c.args[c.argPos] in the format engine is reached only through a branch that compares the cursor with the length of the argument list (cursor < len) on every path; 0 <= cursor alone does not protect against a missing argument", 12)
 	an := lenflow.New(c)
 	for _, fn := range c.ModuleFuncs() {
